@@ -50,7 +50,7 @@ func judge(sh *shared, o *observation) {
 			viol("no-restart", "the daemon does not start again "+when+": "+v.Err)
 			return
 		}
-		if v.Latency > 5 || strings.Contains(v.Err, "timeout") {
+		if v.Latency > 20 || strings.Contains(v.Err, "timeout") {
 			viol("query-blocked", fmt.Sprintf("a status query %s took %.1f s (%s)", when, v.Latency, v.Err))
 			return
 		}
@@ -66,7 +66,7 @@ func judge(sh *shared, o *observation) {
 	if o.Late != nil {
 		r := residents[0].Ref
 		switch {
-		case o.Late.Latency > 5 || strings.Contains(o.Late.Err, "timeout"):
+		case o.Late.Latency > 20 || strings.Contains(o.Late.Err, "timeout"):
 			viol("query-blocked:rescan", fmt.Sprintf("status of a unit found by rescanning took %.1f s (%s)", o.Late.Latency, o.Late.Err))
 		case o.Late.Err != "" || !o.Late.Listed || o.Late.State != r.State || o.Late.Size != r.Size || o.Late.WorkType != r.WorkType:
 			viol("rescan-differs", fmt.Sprintf("a unit directory (state %d size %d type %q) found by rescanning is answered listed=%v state %d size %d type %q (%s)",
